@@ -220,6 +220,7 @@ class ClockOracle:
         self.accepted = [float(tm.time)]
         self.hit = [close(tm, self.accepted[0], s) for s in self.sched]
         self.consec_fail = 0
+        self._rewind_scale = 0.0
         self.last_attempt_dt = None
         self.n_attempts = 0
         self.accepted_since_last_fault = 0
@@ -274,8 +275,12 @@ class ClockOracle:
 
     def failed_step(self, t_after: float, dt_attempt: float) -> None:
         prev = self.accepted[-1]
+        # the clock is rewound by adding and subtracting dt in floating point: each failed attempt since the last accepted
+        # step leaves a rounding error of the order of eps times the magnitudes involved in *that* attempt, and these
+        # errors add up over consecutive failures (a first failed attempt with dt = 1 followed by attempts with dt = 0.06)
         scale = max(abs(prev), abs(dt_attempt), abs(prev + dt_attempt))
-        if abs(t_after - prev) > 8 * EPS * scale:
+        self._rewind_scale = (self._rewind_scale if self.consec_fail else 0.0) + scale
+        if abs(t_after - prev) > 8 * EPS * self._rewind_scale:
             self._v("failed_step_rewinds_clock", f"after a failed attempt the clock is {t_after!r}, last accepted time is {prev!r}", "rewind_wrong")
         self.consec_fail += 1
         self.accepted_since_last_fault = 0
